@@ -1,8 +1,8 @@
 CONSTANTS Carriers = {"vps", "p1", "p2"} Vals = {"a", "b"} Labels = {"p", "q"} Times = {"t"} Bads = {}
   WssWords = {} MaxRecv = 6 UnknownOnce = TRUE XdsGuard = TRUE Calls = {}
-  Handlers = {"h1", "h2"} InitMasks = {{"NETWORK", "NETWORK_ID", "PROG_ID", "LOCAL_TIME", "ASPECT", "TTX_PAGE", "CAPTION"}, {"NETWORK", "TTX_PAGE"}, {"TTX_PAGE"}} RegMasks = {{"CAPTION"}, {"NETWORK_ID", "PROG_ID"}, {"PROG_ID", "LOCAL_TIME"}, {"NETWORK", "NETWORK_ID", "PROG_ID", "LOCAL_TIME", "ASPECT", "TTX_PAGE", "CAPTION"}} Apis = {"reg", "add"} MaxReg = 2
+  Handlers = {"h1", "h2"} InitMasks = {{"NETWORK", "NETWORK_ID", "PROG_ID", "LOCAL_TIME", "ASPECT", "TTX_PAGE", "CAPTION"}, {"NETWORK", "TTX_PAGE"}, {"TTX_PAGE"}} RegMasks = {{"CAPTION"}, {"NETWORK_ID", "PROG_ID"}, {"PROG_ID", "LOCAL_TIME"}, {"NETWORK", "NETWORK_ID", "PROG_ID", "LOCAL_TIME", "ASPECT", "TTX_PAGE", "CAPTION"}} Apis = {"reg", "add"} MaxReg = 2 CdLen = 40 IdleSteps = {} MaxGap = 0 MaxIdle = 0
 SPECIFICATION GSpec
 VIEW gview
 INVARIANTS Dump TypeOK Faithful
-PROPERTIES OfThisReception OnlyAfterRepeat VpsLabelTwice NetworkMeansChange OneNetworkEvent NotAgainWhileSame StationKept CacheKept CacheDropped Gated WssOnlyAfterRepeats AspectRevertOnlyOnChange
+PROPERTIES OfThisReception OnlyAfterRepeat VpsLabelTwice NetworkMeansChange OneNetworkEvent NotAgainWhileSame StationKept CacheKept CacheDropped Gated WssOnlyAfterRepeats AspectRevertOnlyOnChange GapKeeps DropOutOnce
 CHECK_DEADLOCK FALSE
